@@ -318,6 +318,15 @@ func runC20(w *W) {
 		if strings.Join(sortedCopy(gotO), "|") != strings.Join(sortedCopy(expO), "|") {
 			w.Viol(fmt.Sprintf("C20:GetOtherFestivals:%02d-%02d", d.M, d.D), fmt.Sprintf("%s: other festivals %v, reference %v", d.Ymd, gotO, expO), d.Ymd)
 		}
+		// the answers depend on the date only, not on how the object was obtained
+		for _, r := range d.SolarRoutes(prev, d.J%29 == 0) { // the lunar route on every 29th day: all weekdays and month-days
+			w.R.Evals++
+			rf, ro := listStrings(r.S.GetFestivals()), listStrings(r.S.GetOtherFestivals())
+			if r.S.GetXingZuo() != got || r.S.GetWeek() != wd || strings.Join(rf, "|") != strings.Join(gotF, "|") || strings.Join(ro, "|") != strings.Join(gotO, "|") {
+				w.Viol("C20:route:"+d.Ymd, fmt.Sprintf("%s obtained by %s (prints %s): sign %s weekday %d festivals %v %v; by NewSolarFromYmd: sign %s weekday %d festivals %v %v",
+					d.Ymd, r.Name, r.S.ToYmdHms(), r.S.GetXingZuo(), r.S.GetWeek(), rf, ro, got, wd, gotF, gotO), d.Ymd)
+			}
+		}
 		if len(gotF)+len(gotO) > 0 || nontriv {
 			w.R.Nontrivial++
 		}
